@@ -12,6 +12,7 @@ RULE = ("constrained schemas as in C03 with 2-4 constraints (subtype and elimina
         "non-trivial = at least two constraints were pending at some re-check point; distinct by (language, schema, arguments)")
 ASSUMPTIONS = ["a schedule is a choice of iteration order at each re-check point (what a Python set could produce)",
                "divergence only between TypingError subclasses when every schedule fails is known finding D14"]
+INVARIANTS = True   # runner.run_invariants: hypotheses of the engine theorems evaluated on the model's runs of this check's infer lines
 TRUSTED = ["harness/infer.py (hook installation, canonical rendering)"]
 OWN_CORPUS = True
 
